@@ -117,6 +117,7 @@ type ArrayNode struct {
 type HashNode struct {
 	ExpressionNode
 	items map[Node]Node
+	keys  []Node // the keys in source order (evaluation order; a later duplicate wins)
 }
 
 // ConditionalNode represents ternary operator (condition ? true : false)
